@@ -859,6 +859,16 @@ func headerValue(val string) string {
 	return val
 }
 
+// containsCTL reports whether s contains a control byte other than a horizontal tab (CR and LF included).
+func containsCTL(s string) bool {
+	for i := 0; i < len(s); i++ {
+		if (s[i] < 0x20 && s[i] != '\t') || s[i] == 0x7f {
+			return true
+		}
+	}
+	return false
+}
+
 // containsCRLF reports whether s contains a carriage return or a line feed.
 func containsCRLF(s string) bool {
 	for i := 0; i < len(s); i++ {
